@@ -98,6 +98,8 @@ SPECIAL = {
     "config_invalid": ("crate_a/typeshare.toml", "file", "this is [not = toml\n"),
     "config_symlink_loop": ("crate_a/typeshare.toml", "symlink", "typeshare.toml"),
     "config_dangling_link": ("crate_a/typeshare.toml", "symlink", "no_such_file.toml"),
+    "config_odd_values": ("crate_a/typeshare.toml", "file", '[go]\nuppercase_acronyms = ["ID", "", "_", "a"]\n[swift]\ndefault_decorators = [""]\nprefix = ""\ncodablevoid_constraints = ["", "X"]\n'
+                          '[kotlin]\nprefix = ""\n[typescript.type_mappings]\n"" = ""\n"Edge" = ""\n[python.type_mappings]\n"u32" = ""\n[scala.type_mappings]\n"" = "X"\n'),
 }
 
 
